@@ -17,6 +17,11 @@ WORK = os.path.join(ROOT, "work")
 REPO = os.environ.get("VERIF_REPO", "/repo")
 sys.path.insert(0, os.path.join(ROOT, "tools"))
 
+# properties whose larger generator size means many cargo builds: the quick tier keeps the small size
+QUICK_SMALL = {"C19"}
+ONE_ROUND = {"C19"}          # exhaustive over configurations already
+THOROUGH_ROUNDS = 6
+
 ACCEPTED_AXIOMS = {"propext", "Classical.choice", "Quot.sound"}
 FORBIDDEN = re.compile(r"\bsorry\b|\badmit\b|^axiom |native_decide|bv_decide|implemented_by|\bunsafe |maxHeartbeats 0")
 
@@ -68,10 +73,24 @@ def prop_module(prop):
     return f"Rtcm.Props.{prop}"
 
 
+# system-level theorems (Props/Sys.lean: builder -> stream -> chunked scanner -> decoder) compose the
+# theorems of several properties; they are built and audited with the properties they extend
+EXTRA_MODULES = {"C01": ["Sys"], "C05": ["Sys"], "C06": ["Sys"]}
+
+
 def prop_theorems(prop):
-    """All `theorem` declarations of Props/<prop>.lean are property theorems (helper lemmas live in
-    Proofs/).  Returns (names, number of non-vacuity examples)."""
-    path = os.path.join(LEAN, "Rtcm", "Props", prop + ".lean")
+    """All `theorem` declarations of Props/<prop>.lean (and of the system-level files listed for it) are
+    property theorems (helper lemmas live in Proofs/).  Returns (names, number of non-vacuity examples)."""
+    names, examples = [], 0
+    for mod in [prop] + EXTRA_MODULES.get(prop, []):
+        n, e = module_theorems(mod)
+        names += n
+        examples += e
+    return names, examples
+
+
+def module_theorems(mod):
+    path = os.path.join(LEAN, "Rtcm", "Props", mod + ".lean")
     src = open(path).read()
     # strip comments
     src_nc = re.sub(r"/-.*?-/", "", src, flags=re.S)
@@ -127,7 +146,8 @@ def lean_prove(prop, thorough):
     res = {"built": False, "log": "", "theorems": [], "axioms": {}, "bad_axioms": {}, "examples": 0,
            "forbidden": [], "leanchecker": None}
     with Lock("lean"):
-        rc, out, err, dt = run(["lake", "build", prop_module(prop), "driver"], cwd=LEAN, timeout=3600)
+        mods = [prop_module(prop)] + [prop_module(m) for m in EXTRA_MODULES.get(prop, [])]
+        rc, out, err, dt = run(["lake", "build"] + mods + ["driver"], cwd=LEAN, timeout=3600)
         res["build_s"] = round(dt, 1)
         text = (out + err).decode(errors="replace")
         res["log"] = text[-6000:]
@@ -146,7 +166,8 @@ def lean_prove(prop, thorough):
         os.makedirs(audit_dir, exist_ok=True)
         audit = os.path.join(audit_dir, prop + ".lean")
         with open(audit, "w") as f:
-            f.write(f"import {prop_module(prop)}\n")
+            for m in mods:
+                f.write(f"import {m}\n")
             for n in names:
                 f.write(f"#print axioms {n}\n")
         rc, out, err, dt = run(["lake", "env", "lean", audit], cwd=LEAN, timeout=1800)
@@ -170,7 +191,7 @@ def lean_prove(prop, thorough):
                 res["bad_axioms"][n] = bad
         res["forbidden"] = forbidden_scan()
         if thorough:
-            rc, out, err, dt = run(["lake", "env", "leanchecker", prop_module(prop)], cwd=LEAN, timeout=3600)
+            rc, out, err, dt = run(["lake", "env", "leanchecker"] + mods, cwd=LEAN, timeout=3600)
             res["leanchecker"] = {"rc": rc, "s": round(dt, 1), "out": (out + err).decode(errors="replace")[-500:]}
     return res
 
@@ -322,15 +343,48 @@ def main():
            "panics": 0, "classes": {}, "samples": []}
     extra = {}
     if impl_ok:
-        ctx = props.Ctx(prop=prop, tier=tier, seed=seed, wdir=wdir, root=ROOT, repo=REPO,
-                        driver=DRIVER if lean.get("driver_built") else None,
-                        exe_release=exe("release"), exe_relchk=exe("relchk"),
-                        run_all=run_all, replay=args.replay, lean_ok=lean["built"], broken=bool(broken))
-        extra = P.run(ctx)   # fills ctx.cov, ctx.violations, ctx.disagreements
-        cov.update(ctx.cov)
-        violations.extend(ctx.violations)
-        for d in ctx.disagreements:
-            broken.append(("correspondence", d["stream"], json.dumps(d)[:1500]))
+        # Depth: the generators know two sizes ("quick", "thorough").  The registered quick tier runs one round
+        # at the larger size (except where that means minutes of cargo builds: QUICK_SMALL); the registered
+        # thorough tier runs THOROUGH_ROUNDS rounds at the larger size, each with its own seed.
+        gen_tier = "quick" if (tier == "quick" and prop in QUICK_SMALL) else "thorough"
+        rounds = 1 if tier == "quick" or args.replay or prop in ONE_ROUND else THOROUGH_ROUNDS
+        rounds = int(os.environ.get("VERIF_ROUNDS", rounds))
+        numeric = ("evaluations", "distinct_nontrivial", "model_disagreements", "oracle_failures")
+        for k in range(rounds):
+            ctx = props.Ctx(prop=prop, tier=gen_tier, seed=seed + 1000003 * k, wdir=wdir, root=ROOT, repo=REPO,
+                            driver=DRIVER if lean.get("driver_built") else None,
+                            exe_release=exe("release"), exe_relchk=exe("relchk"),
+                            run_all=run_all, replay=args.replay, lean_ok=lean["built"], broken=bool(broken),
+                            registered_tier=tier, round=k)
+            ex = P.run(ctx)   # fills ctx.cov, ctx.violations, ctx.disagreements
+            if isinstance(ex, dict):
+                extra.update(ex)
+            for key, v in ctx.cov.items():
+                if key in numeric:
+                    cov[key] = cov.get(key, 0) + v
+                elif key == "classes":
+                    for c, n_ in v.items():
+                        cov["classes"][c] = cov["classes"].get(c, 0) + n_
+                elif key == "samples":
+                    if not cov["samples"]:
+                        cov["samples"] = v
+                elif isinstance(v, bool):
+                    cov[key] = (cov.get(key, v) and v) if key == "exhaustive" else (cov.get(key, False) or v)
+                elif isinstance(v, (int, float)) and not isinstance(cov.get(key), (list, dict, str)):
+                    cov[key] = cov.get(key, 0) + v
+                else:
+                    cov[key] = v
+            violations.extend(ctx.violations)
+            for d in ctx.disagreements:
+                if len(broken) < 60:
+                    broken.append(("correspondence", d["stream"], json.dumps(d)[:1500]))
+            if k + 1 < rounds:
+                with open(os.path.join(wdir, "ops.txt")) as f_, open(os.path.join(wdir, "ops-all.txt"), "a" if k else "w") as g_:
+                    g_.write(f_.read())
+            if violations and k >= 1:
+                break       # a failing input is in hand; later rounds add nothing to the verdict
+        cov["rounds"] = rounds
+        cov["generator_size"] = gen_tier
 
     # 6. verdict
     known = [k for k in load_known() if k.get("property") == prop and k.get("status") == "finding"]
